@@ -205,9 +205,25 @@ def v1(repo: Repo) -> RuleResult:
         res.bad(f)
     for cn in ("Constant", "Option"):
         fv = m.func("_ast.py", f"{cn}.from_value")
-        t = src_of(fv.node)
         res.inst(part="constant", action=f"{cn}.from_value")
-        if "return class_(value=value, **kwds)" not in t:
+        ok_fv = False
+        try:
+            from .pyflow import single_atom as _sa1
+
+            fl_fv = compiler_flow(repo, cn, "_ast.py", inline=lambda n_, f_: False)
+            prm_fv = [a_.arg for a_ in fv.node.args.args]
+            rets_fv = [p_ for p_ in fl_fv.run(fv.node, {prm_fv[0]: _V("cls"), prm_fv[1]: _V("value")}) if p_.done == "return" and p_.ret is not None]
+            ok_fv = bool(rets_fv)
+            for p_ in rets_fv:
+                a_ = _sa1(p_.ret)
+                # <class chosen by reflect_subclass_by_value_or_raise(value)>(value=value, **kwds)
+                good = a_ is not None and a_[0] in ("call", "mcall") and any((_sa1(x) or ("",))[0] == "kw" and _sa1(x)[1] == "__callee__" and _sh(_sa1(x)[2]).endswith(".reflect_subclass_by_value_or_raise(value)") for x in a_[2] if hasattr(x, "terms")) and any((_sa1(x) or ("",))[0] == "kw" and _sa1(x)[1] == "value" and _sh(_sa1(x)[2]) == "value" for x in a_[2] if hasattr(x, "terms"))
+                if not good:
+                    ok_fv = False
+        except Inconclusive as e:
+            res.unsure(f"V1: {cn}.from_value: {e}")
+            continue
+        if not ok_fv:
             f = Finding("V1", fv.rel, fv.node.lineno, f"{cn}.from_value", "", "from_value does not construct the node with the given value", tag=f"{cn}.from_value")
             f.part = "constant"
             res.bad(f)
